@@ -51,7 +51,16 @@ def trace(name):
 
 
 def xs(rng, n, pat=None):
-    pat = pat if pat is not None else rng.integers(0, 9)
+    pat = pat if pat is not None else rng.integers(0, 10)
+    if pat == 9:
+        # index-like abscissae with a fractional jitter on part of the interior points: many sub-ranges span exactly
+        # (number of points - 1) although their points are NOT evenly spaced
+        x = np.arange(n, dtype=float) + float(rng.integers(0, 4))
+        if n > 2:
+            jit = rng.integers(-3, 4, n) / 8.0 * (rng.random(n) < 0.4)
+            jit[0] = jit[-1] = 0.0
+            x = x + jit
+        return x, 9
     if pat == 8:
         # a regular grid up to a relative jitter of 1e-6 .. 1e-8 (sampling clock drift): NOT regular, although every
         # tolerance-based comparison of the steps says so
